@@ -158,6 +158,8 @@ class HTTPStream:
             ):
                 if not isinstance(message["path"], str):
                     raise TypeError(f"{message['path']} should be a str")
+                if any(char in message["path"] for char in ("\r", "\n", "\x00")):
+                    raise ValueError("The push path must not contain CR, LF or NUL")
                 headers = [(b":scheme", self.scope["scheme"].encode())]
                 for name, value in self.scope["headers"]:
                     if name == b"host":
@@ -178,7 +180,8 @@ class HTTPStream:
                 and self.scope["http_version"] in EARLY_HINTS_VERSIONS
                 and self.state == ASGIHTTPState.REQUEST
             ):
-                headers = [(b"link", bytes(link).strip()) for link in message["links"]]
+                # The links are header values, and validated as such
+                headers = build_and_validate_headers([(b"link", link) for link in message["links"]])
                 await self.send(
                     InformationalResponse(
                         stream_id=self.stream_id,
